@@ -194,7 +194,9 @@ func (s *Schema) ValidateData(data []byte) error {
 		return d
 	}
 
-	if !bytes.HasPrefix(bytes.TrimSpace(data), []byte{'{'}) {
+	// anything that is not JSON already is taken for YAML (a JSON document
+	// need not be an object, nor is all of its legal white space legal YAML)
+	if !json.Valid(data) {
 		err = yaml.Unmarshal(data, &doc, useNumber)
 		if err != nil {
 			return fmt.Errorf("failed to YAML unmarshal data for validation: %w", err)
